@@ -51,7 +51,8 @@ RULE = ('cases: abstract note extents drawn from the seeded PRNG (0..8 notes; na
         'descriptor sizes 0..40; a sweep of all (namesz mod 4, descsz mod 4) residues incl. 0 sizes, one and two notes, '
         'header-only final notes; unknown owners and types; both classes and byte orders; e_type CORE vs REL/EXEC/DYN/'
         'NONE/raw; machines with 16-bit and 32-bit uid; known descriptors: ABI tag, build id, gold version, property '
-        'lists of 0..6 properties of every kind with garbage padding, NT_PRPSINFO, NT_FILE), every free padding byte '
+        'lists of 0..6 properties of every kind with garbage padding (also x86/AArch64 bit-mask types declaring 0, 8, 12... '
+        'bytes, followed by further properties), NT_PRPSINFO, NT_FILE), every free padding byte '
         'non-zero garbage; extent placed mid-file or at EOF at a random (unaligned) offset; every header field that does '
         'not locate the extent is drawn (typical / 0 / 1 / maximum / random of the field width): sh_flags (without '
         'SHF_COMPRESSED), sh_addr, sh_link, sh_info, sh_addralign, sh_entsize, p_flags, p_vaddr, p_paddr, p_memsz, '
@@ -73,6 +74,7 @@ EM = {'EM_386': 3, 'EM_X86_64': 62, 'EM_ARM': 40, 'EM_SPARC': 2, 'EM_68K': 4, 'E
 WORD_PROPS = [0xc0000002, 0xc0008002, 0xc0010001, 0xc0010002, 0xc0000000]
 NT_FILE = 0x46494c45
 FINAL_NOTE_KEY = 'final-header-only-note-dropped'
+ODD_WORD_PROP_KEY = 'gnu-property-word-type-odd-size'
 
 
 # ----------------------------------------------------------------------------- ELF container
@@ -191,9 +193,14 @@ def _gen_prop(rng, is64):
     elif r < 0.6:
         p = ['raw', 2, b'']                       # GNU_PROPERTY_NO_COPY_ON_PROTECTED
         dsz = 0
-    elif r < 0.7:
+    elif r < 0.68:
         dsz = rng.choice([0, 1, 2, 3, 5, 12] + [8 if not is64 else 4])     # stack size of a foreign width: raw
         p = ['raw', 1, _bytes(rng, dsz)]
+    elif r < 0.78:
+        # a bit-mask type that declares a size other than the ABI's 4: the list is framed by pr_datasz, the
+        # data are those bytes, and the properties after it must be found where the stride says
+        dsz = rng.choice([0, 0, 8, 8, 12, 1, 3, 5, 16])
+        p = ['raw', rng.choice(WORD_PROPS), _bytes(rng, dsz)]
     else:
         dsz = rng.choice([0, 1, 2, 3, 4, 5, 6, 7, 8, 9, 13, 16])
         ty = rng.choice([0, 3, 4, 0xc0000001, 0xc0000003, 0xb0000000, rng.getrandbits(32)])
@@ -701,6 +708,11 @@ def _nontrivial(notes):
     return False
 
 
+def _odd_word_prop(notes):
+    """a GNU property list holding a bit-mask type with a size other than 4 (the repaired Elf_Prop defect)"""
+    return any(desc[0] == 'props' and any(p[0] == 'raw' and p[1] in WORD_PROPS for p, _ in desc[1]) for _, _, _, desc, _ in notes)
+
+
 def _final_header_only(notes):
     return bool(notes) and notes[-1][0] == 'none' and notes[-1][3][0] in ('raw', 'build', 'gold') and len(notes[-1][3][1]) == 0
 
@@ -873,8 +885,10 @@ def evaluate(ctx, cases):
             ctx.bump('multi_sections', len(a[1]))
             ctx.bump('multi_first_view', str(a[3][0]))
             ctx.bump('multi_empty_section', any(len(x) == 0 for x in a[1]))
+            odd = sx_canon(w['impl']) != sx_canon(spec) and any(_odd_word_prop(sec) for sec in a[1])
             ctx.record(kind, a, impl=w['impl'], spec=spec, model=model, in_domain=w['wf'],
-                       nontrivial=len(a[1]) >= 2 and len(set(map(str, a[3]))) >= 2, key='notes-adjacent-extents')
+                       nontrivial=len(a[1]) >= 2 and len(set(map(str, a[3]))) >= 2,
+                       key=ODD_WORD_PROP_KEY if odd else 'notes-adjacent-extents')
             continue
         if kind == 'notes':
             c, notes = a[0], a[1]
@@ -904,6 +918,8 @@ def evaluate(ctx, cases):
             key = 'notes'
             if isinstance(impl, list) and len(impl) == 4 and sx_canon(impl[:2]) == sx_canon(spec[:2]) and sx_canon(impl) != sx_canon(spec):
                 key = 'notes-interleaved'       # right when consumed at once, wrong when the consumer reads in between
+            if sx_canon(impl) != sx_canon(spec) and _odd_word_prop(notes):
+                key = ODD_WORD_PROP_KEY
             if _final_header_only(notes) and isinstance(impl, list) and isinstance(spec[0], list):
                 # the signature of the (repaired) loop-guard defect: everything right except that the last note is missing
                 dropped = [[v[0][:-1], v[1]] for v in spec]
